@@ -207,6 +207,12 @@ func (p *Parser) ParseArgs(args []string) ([]string, error) {
 		return nil, p.internalError
 	}
 
+	// the active commands are decided by the arguments of this call alone:
+	// forget what an earlier call on the same parser selected
+	p.eachCommand(func(c *Command) {
+		c.Active = nil
+	}, true)
+
 	p.eachOption(func(c *Command, g *Group, option *Option) {
 		option.clearReferenceBeforeSet = true
 		option.updateDefaultLiteral()
